@@ -350,6 +350,17 @@ def run(tier):
                'selector': sel_cov, 'selector_cases_run': total_cases, 'selector_full_space_tlc': res.get('sel_full'),
                'promql': pq['stats'],
                'signatures': sorted(seen)}
+        if tier == 'thorough':
+            # which names / values / label sets the label and series endpoints of the Loki and Prometheus APIs return for the same
+            # matcher semantics is the subject of the extra check X06 (LabelIndex.tla, instantiating Selector.tla); deep tier
+            import props.x06 as x06
+            xr = x06.run('quick')
+            for v in xr['violations']:
+                uniq.append(dict(v, property='C17', signature='labels|' + v['signature']))
+            cov['labels_x06'] = {k: xr['coverage'].get(k) for k in ('states', 'transitions', 'traces_validated_against_impl')}
+            cov['states'] += xr['coverage'].get('states', 0)
+            cov['transitions'] += xr['coverage'].get('transitions', 0)
+            cov['traces_validated_against_impl'] += xr['coverage'].get('traces_validated_against_impl', 0)
         return {'level': 'model_checking', 'coverage': cov, 'violations': uniq,
                 'assumptions': ['ClickHouse is the reference interpreter chsql (match() searches anywhere, bitShiftLeft keeps the UInt8 width); tables and materialized views come from the real DDL',
                                 'label values contain no newline and profile type parts no ":" or ";"; an empty matcher list is not a Prometheus selector',
